@@ -26,6 +26,84 @@ pub fn cfg_for(driver: &str, tier: &str) -> Option<(Cfg, u32)> {
             c.prune = true;
             (c, if q { 1 } else { 2 })
         }
+        // C02: every interest x mode of an fd source, re-configured by update()
+        "modes" => {
+            let mut c = Cfg::base("modes");
+            let mut all = vec![];
+            for m in 0..3u8 {
+                for (r, w) in [(true, false), (false, true), (true, true), (false, false)] {
+                    all.push((r, w, m));
+                }
+            }
+            c.initial_sets = all.iter().map(|&(r, w, mode)| vec![KindSpec::Fd { r, w, mode }, KindSpec::Ping]).collect();
+            c.reconf = if q { vec![(true, false, 0), (true, true, 1), (false, true, 2), (true, false, 2)] } else { all.clone() };
+            c.max_actors = 2;
+            c.depth = if q { 5 } else { 6 };
+            c.top_remove = false;
+            c.top_fill = true;
+            c.cb_remove = false;
+            c.cb_nodrain = true;
+            c.cb_enable = true;
+            c.check_epoll = true;
+            c.prune = true;
+            (c, if q { 1 } else { 2 })
+        }
+        // C02: several simultaneously ready sources of mixed kinds, in-callback operations
+        "batch" => {
+            let mut c = Cfg::base("batch");
+            c.initial_sets = vec![
+                vec![KindSpec::Ping, KindSpec::Chan, KindSpec::Timer(-1)],
+                vec![FD_RL, KindSpec::Timer(1), KindSpec::Ping],
+                vec![KindSpec::Chan, FD_RE, FD_RO],
+                vec![KindSpec::Ping, KindSpec::Ping, KindSpec::Chan, KindSpec::Timer(-1)],
+            ];
+            c.max_actors = 4;
+            c.depth = if q { 5 } else { 6 };
+            c.top_remove = false;
+            c.top_advance = true;
+            c.cb_cause2 = true;
+            c.prune = true;
+            (c, if q { 1 } else { 2 })
+        }
+        // C06: every removal path, slot reuse, every token ever issued used again
+        "removal" => {
+            let mut c = Cfg::base("removal");
+            c.insertable = vec![KindSpec::Ping, KindSpec::Chan, KindSpec::Timer(-1), FD_RL];
+            c.max_actors = if q { 3 } else { 4 };
+            c.depth = if q { 5 } else { 6 };
+            c.top_stale = true;
+            c.top_update = false;
+            c.cb_update = false;
+            c.cb_cause2 = true;
+            c.cb_insert = true;
+            c.cb_remove_self_insert = true;
+            c.check_epoll = true;
+            c.prune = true;
+            c.final_dispatches = 1;
+            (c, if q { 1 } else { 2 })
+        }
+        // C07: disable / enable / update around causes, from outside and from callbacks
+        "disable" => {
+            let mut c = Cfg::base("disable");
+            c.initial_sets = vec![
+                vec![KindSpec::Ping, KindSpec::Chan],
+                vec![KindSpec::Timer(1), KindSpec::Ping],
+                vec![FD_RL, KindSpec::Chan],
+                vec![FD_RE, KindSpec::Ping],
+                vec![FD_RO, KindSpec::Timer(-1)],
+                vec![KindSpec::Timer(-1), KindSpec::Timer(1), KindSpec::Ping],
+            ];
+            c.max_actors = 3;
+            c.depth = if q { 5 } else { 7 };
+            c.top_remove = false;
+            c.cb_remove = false;
+            c.top_cause2 = false;
+            c.top_advance = true;
+            c.update_disabled = true;
+            c.prune = true;
+            c.final_dispatches = 1;
+            (c, if q { 1 } else { 2 })
+        }
         _ => return None,
     })
 }
